@@ -406,7 +406,8 @@ func (s *HiddenFS) Symlink(oldname, newname string) error {
 	if path.IsAbs(filepath.ToSlash(oldname)) || filepath.IsAbs(filepath.FromSlash(oldname)) {
 		hidden, err = s.isHidden(oldname)
 	} else {
-		startingDir := filepath.Dir(newname)
+		// the link is created in the directory of the CLEANED name ("/dir/link/" lies in "/dir")
+		startingDir := filepath.Dir(filepath.Clean(newname))
 		hidden, err = s.isHidden(filepath.Join(startingDir, oldname))
 	}
 
